@@ -433,4 +433,82 @@ def r3_6(ctx: Ctx, rule: str = "R3.6", owner: str = "jsonpath.pointer.JSONPointe
     return rr
 
 
-RULES = [r3_1, r3_2, r3_3, r3_4, r3_5, r3_6]
+def r3_7(ctx: Ctx) -> RuleResult:
+    """The location of an array element is its index counted from the start: the index selector normalises every
+    negative index that is in range.  What it appends to `parts` (and prints in the path) depends on the written
+    index and the array length only through their order, so it is folded on one representative of each order:
+    index = -1 (inside), -len (the first element), -len-1 (outside), 0 and len-1."""
+    from sa.peval import UNKNOWN
+    from sa.peval import Explorer
+
+    from .common import isinstance_classes
+    from .model import MObj
+    from .model import Model
+
+    rr = RuleResult("R3.7", "the index selector normalises every in-range negative index", floor=6)
+    cls = ctx.repo.require_class("jsonpath.selectors.IndexSelector")
+    n = 3
+    for mname in ("resolve", "resolve_async"):
+        fn = cls.methods.get(mname)
+        if fn is None:
+            raise AnalysisError(f"R3.7: IndexSelector.{mname} not found")
+        loops = [x for x in fn.node.body if isinstance(x, (ast.For, ast.AsyncFor))]
+        if len(loops) != 1 or not isinstance(loops[0].target, ast.Name):
+            raise AnalysisError(f"R3.7: IndexSelector.{mname} is no longer one loop over the input nodes")
+        mvar = loops[0].target.id
+        for index, want in ((-1, n - 1), (-n, 0), (0, 0), (n - 1, n - 1)):
+            got: List[object] = []
+
+            def hook(e: ast.Call, a: List[object], env: Dict[str, object], ex: Explorer) -> object:
+                if callee_name(e) in ("match_class", "JSONPathMatch"):
+                    got.append(ex.value(kw(e, "parts"), env) if kw(e, "parts") is not None else UNKNOWN)
+                    return MObj(model, "JSONPathMatch", {})
+                return None
+
+            def oracle(t: ast.expr, env: dict) -> Optional[bool]:  # type: ignore[type-arg]
+                ic = isinstance_classes(t)
+                if ic is not None and ic[0] == f"{mvar}.obj":
+                    names = set(ic[1])
+                    if names <= {"str", "bytes", "Mapping", "dict", "MutableMapping"}:
+                        return False
+                    if names & {"Sequence", "list", "MutableSequence"}:
+                        return True
+                return None
+
+            model = Model(ctx, "R3.7", hook, oracle)
+            selector = MObj(model, "IndexSelector", {"index": index, "_as_key": str(index), "env": UNKNOWN})
+            match = MObj(model, "JSONPathMatch", {"obj": tuple(range(n)), "parts": ("a",), "path": "$['a']", "root": UNKNOWN})
+            ex = Explorer(ctx.folder, fn, oracle, on_call=lambda e, a, env: _model_call(model, hook, e, a, env, ex), enter_with=True)
+            ex.block(list(loops[0].body), {fn.node.args.args[0].arg: selector, mvar: match})
+            tails = [g[-1] if isinstance(g, tuple) and g else g for g in got]
+            if tails and all(t_ == want and type(t_) is int for t_ in tails):
+                rr.ok(fn.loc(), f"IndexSelector.{mname}: index {index} of a {n}-element array is located at {want}")
+            elif not tails or any(t_ is UNKNOWN for t_ in tails):
+                raise AnalysisError(f"R3.7: the part appended by IndexSelector.{mname} for index {index} cannot be determined ({tails})")
+            else:
+                rr.bad(fn, fn.node, f"IndexSelector.{mname} locates the element `[{index}]` of a {n}-element array at {tails[0]!r} instead of {want}: "
+                       "the normalized path and the pointer of the match carry a negative index"
+                       + (" for the index that equals minus the length" if index == -n else ""),
+                       construct=f"IndexSelector.{mname}: index {index} of {n} -> {tails[0]!r}")
+    return rr
+
+
+def _model_call(model, hook, e, a, env, ex):  # type: ignore[no-untyped-def]
+    """Call hook of an Explorer that runs a method body directly (not through Model.call)."""
+    from sa.peval import RETURNS_NONE
+
+    from .model import MObj
+
+    r = hook(e, a, env, ex)
+    if r is not None:
+        return r
+    if isinstance(e.func, ast.Attribute) and isinstance(e.func.value, (ast.Name, ast.Attribute)):
+        base = ex.value(e.func.value, env)
+        if isinstance(base, MObj):
+            kws = {k.arg: ex.value(k.value, env) for k in e.keywords if k.arg}
+            r2 = base.peval_call(e.func.attr, list(a), kws)
+            return RETURNS_NONE if r2 is None else r2
+    return None
+
+
+RULES = [r3_1, r3_2, r3_3, r3_4, r3_5, r3_6, r3_7]
